@@ -127,12 +127,13 @@ Proof.
 Qed.
 
 Lemma collect_node_ok : forall n s, Inv s -> ranked rank s -> n < length s ->
-  exists s' L, collect_node NH false n s = Ok (s', L) /\ Inv s' /\ cgrow s s' /\ collected_at s' n /\ flipped s s' L.
+  exists s' L, collect_node NH false n s = Ok (s', L) /\ Inv s' /\ cgrow s s' /\ collected_at s' n /\ flipped s s' L /\
+    (forall m, In m L -> m = n).
 Proof.
   intros n s [I I4] Rk L. destruct (get_lt s n L) as [x E]. unfold collect_node, get. rewrite E. simpl.
   destruct (collected x) eqn:Cx.
   - exists s, []. split; auto. split; [split; auto|]. split; [apply cgrow_refl|]. split; [exists x; auto|].
-    intros m y y' Ey Ey' C C'. congruence.
+    split; [|intros m []]. intros m y y' Ey Ey' C C'. congruence.
   - set (sc := upd n (set_collected true) s).
     assert (Ic : Inv0 sc).
     { apply (Inv0_upd NH s n x); auto.
@@ -149,7 +150,7 @@ Proof.
     assert (CG : cgrow s s').
     { eapply cgrow_trans; [|apply grows_cgrow; exact G'].
       apply F2_upd; [apply ncg_refl|]. intros y Ey. split; [unfold nshape; simpl; auto|]. simpl. auto. }
-    split; [split; auto|]; [|split; auto; split].
+    split; [split; auto|]; [|split; auto; split; [|split; [|intros m [<-|[]]; reflexivity]]].
     + intros m y' Ey' Cy'. destruct (F2_nth_r _ _ _ _ _ G' Ey') as (yc & Eyc & (_ & Cc & Hc)).
       destruct (Nat.eq_dec m n) as [->|Nm].
       * destruct HV' as (y2 & Ey2 & _ & Hy2). congruence.
@@ -165,34 +166,40 @@ Qed.
 
 Lemma collect_ok : forall fuel n s, Inv s -> ranked rank s -> n < length s -> rank n < fuel ->
   exists s' L, collect NH false fuel n s = Ok (s', L) /\ Inv s' /\ cgrow s s' /\
-    (forall m, Reach s n m -> collected_at s' m) /\ flipped s s' L.
+    (forall m, Reach s n m -> collected_at s' m) /\ flipped s s' L /\ (forall m, In m L -> Reach s n m).
 Proof.
   induction fuel as [|f IH]; intros n s I Rk L B; [lia|].
   destruct (get_lt s n L) as [x E]. simpl. unfold get at 1. rewrite E. simpl.
-  destruct (collect_node_ok n s I Rk L) as (s0 & L0 & E0 & I0 & G0 & C0 & F0). rewrite E0. simpl.
+  destruct (collect_node_ok n s I Rk L) as (s0 & L0 & E0 & I0 & G0 & C0 & F0 & N0). rewrite E0. simpl.
   set (F := fun (k : nat) (acc : heap * list nat) => r' <- collect NH false f k (fst acc) ;; Ok (fst r', snd acc ++ snd r')).
   assert (FOLD : forall l t L1, Inv t -> ranked rank t -> (forall k, In k l -> k < length t /\ rank k < f) ->
      exists t' L', fold_res F l (t, L1) = Ok (t', L1 ++ L') /\ Inv t' /\ cgrow t t' /\
-       (forall k, In k l -> forall m, Reach t k m -> collected_at t' m) /\ flipped t t' L').
+       (forall k, In k l -> forall m, Reach t k m -> collected_at t' m) /\ flipped t t' L' /\
+       (forall m, In m L' -> exists k, In k l /\ Reach t k m)).
   { induction l as [|k l IHl]; intros t L1 It Rt Hl; simpl.
     - exists t, []. rewrite app_nil_r. split; auto. split; auto. split; [apply cgrow_refl|]. split; [intros k []|].
-      intros m y y' Ey Ey' C C'. congruence.
+      split; [|intros m []]. intros m y y' Ey Ey' C C'. congruence.
     - destruct (Hl k (or_introl eq_refl)) as [Lk Bk].
-      destruct (IH k t It Rt Lk Bk) as (t1 & L2 & E1 & I1' & G1 & C1 & F1).
+      destruct (IH k t It Rt Lk Bk) as (t1 & L2 & E1 & I1' & G1 & C1 & F1 & N1).
       unfold F at 1. simpl. rewrite E1. simpl.
       pose proof (cgrow_shape _ _ G1) as Sh1.
-      destruct (IHl t1 (L1 ++ L2) I1' (shape_ranked _ _ _ Sh1 Rt)) as (t2 & L3 & E2 & I2' & G2 & C2 & F2).
+      destruct (IHl t1 (L1 ++ L2) I1' (shape_ranked _ _ _ Sh1 Rt)) as (t2 & L3 & E2 & I2' & G2 & C2 & F2 & N2).
       { intros k' Hk'. rewrite <- (F2_len _ _ _ Sh1). apply Hl. right. exact Hk'. }
       exists t2, (L2 ++ L3). rewrite app_assoc. split; auto. split; auto. split; [eapply cgrow_trans; eauto|]. split.
       + intros k' [<-|Hk'] m Rm.
         * eapply collected_at_cgrow; eauto.
         * eapply C2; eauto. eapply shape_reach; eauto.
-      + intros m y y'' Ey Ey'' C C''. destruct (F2_nth _ _ _ _ _ G1 Ey) as (y' & Ey' & _).
-        apply in_or_app. destruct (collected y') eqn:Cy'.
-        * left. eapply F1; eauto.
-        * right. eapply F2; eauto. }
+      + split.
+        * intros m y y'' Ey Ey'' C C''. destruct (F2_nth _ _ _ _ _ G1 Ey) as (y' & Ey' & _).
+          apply in_or_app. destruct (collected y') eqn:Cy'.
+          -- left. eapply F1; eauto.
+          -- right. eapply F2; eauto.
+        * intros m Hm. apply in_app_or in Hm. destruct Hm as [Hm|Hm].
+          -- exists k. split; [left; auto | apply N1; auto].
+          -- destruct (N2 m Hm) as (k' & Hk' & Rk'). exists k'. split; [right; auto|].
+             eapply shape_reach; [apply shape_sym; exact Sh1 | exact Rk']. }
   pose proof (cgrow_shape _ _ G0) as Sh0.
-  destruct (FOLD (map snd (kids x)) s0 L0 I0 (shape_ranked _ _ _ Sh0 Rk)) as (s' & L' & E' & I' & G' & C' & F').
+  destruct (FOLD (map snd (kids x)) s0 L0 I0 (shape_ranked _ _ _ Sh0 Rk)) as (s' & L' & E' & I' & G' & C' & F' & N').
   { intros k Hk. apply in_map_iff in Hk. destruct Hk as ([nm k'] & Ek & Hin). simpl in Ek. subst k'.
     split; [rewrite <- (F2_len _ _ _ Sh0); eapply (I_wfk NH s (proj1 I)); eauto|].
     destruct Rk as [R1 _]. assert (rank k < rank n) by (apply R1; exists x, nm; auto). lia. }
@@ -202,10 +209,16 @@ Proof.
     + assert (x0 = x) by congruence. subst. eapply (C' k).
       * apply in_map_iff. exists (nm, k). auto.
       * eapply shape_reach; eauto.
-  - intros m y y'' Ey Ey'' C C''. destruct (F2_nth _ _ _ _ _ G0 Ey) as (y' & Ey' & _).
-    apply in_or_app. destruct (collected y') eqn:Cy'.
-    + left. eapply F0; eauto.
-    + right. eapply F'; eauto.
+  - split.
+    + intros m y y'' Ey Ey'' C C''. destruct (F2_nth _ _ _ _ _ G0 Ey) as (y' & Ey' & _).
+      apply in_or_app. destruct (collected y') eqn:Cy'.
+      * left. eapply F0; eauto.
+      * right. eapply F'; eauto.
+    + intros m Hm. apply in_app_or in Hm. destruct Hm as [Hm|Hm].
+      * rewrite (N0 m Hm). apply Reach_refl. exact L.
+      * destruct (N' m Hm) as (k & Hk & Rk'). apply in_map_iff in Hk. destruct Hk as ([nm k'] & Ek & Hin).
+        simpl in Ek. subst k'. eapply Reach_step; [exists x, nm; split; eauto|].
+        eapply shape_reach; [apply shape_sym; exact Sh0 | exact Rk'].
 Qed.
 
 (* collecting a sub-DAG whose nodes are all collected does nothing *)
